@@ -106,6 +106,9 @@ class IO(object):
         hostname = self.address[0]
         context = context or create_default_context()
         log.encrypt(self.socket, context)
+        # Replies still buffered were received in clear text before the
+        # handshake and must not be interpreted after it (RFC 3207, 4.2).
+        self.recv_buffer = b''
         try:
             self.socket = context.wrap_socket(self.socket,
                                               server_hostname=hostname)
